@@ -224,7 +224,7 @@ def createEventReference (f : FUid) (spec : Spec) (refName : String) (event : Ev
   let r ← getRest
   let id := s!"e{r.events.length}"
   modifyRest fun r => { r with events := r.events ++ [(id, { ev := ne })] }
-  modInstX f fun x => { x with context := setArg refName (.ref "event" id) x.context }
+  setCtxVar f refName (.ref "event" id)
 
 /-- `_start_flow(state, flow_state, event_arguments)` -/
 def startFlow (f : FUid) (evArgs : List (String × Val)) : M Unit := do
@@ -260,7 +260,7 @@ def startFlow (f : FUid) (evArgs : List (String × Val)) : M Unit := do
     for (argName, _) in x.arguments do
       lastIdx := idx
       match lookupArg s!"${idx}" evArgs with
-      | some v => modInstX f fun y => { y with context := setArg argName v y.context }
+      | some v => setCtxVar f argName v
       | none => break
       idx := idx + 1
     if (lookupArg s!"${lastIdx + 1}" evArgs).isSome then
@@ -313,7 +313,7 @@ def generateActionEvent (k : Key) : M Unit := do
         let rr ← getRest
         let id := s!"e{rr.events.length}"
         modifyRest fun r => { r with events := r.events ++ [(id, { ev := e' })] }
-        modInstX f fun x => { x with context := setArg r (.ref "event" id) x.context }
+        setCtxVar f r (.ref "event" id)
       | none => pure ()
   | _ => pyRaise "AssertionError" "not an actionable element"
 
@@ -365,14 +365,14 @@ def resolveActionConflicts (fuel : Nat) (actionable : List Key) : M (List Key) :
           | .action, some wu, .action, some cu =>
             if cu ≠ wu then
               let x ← getInstX k.1
-              for (key, v) in x.context do
+              for (key, v) in ← getCtx k.1 do
                 match v with
                 | .ref "action" u =>
                   if u = cu then
                     match ← getAction? wu with
                     | some a => setAction { a with scopeCount := a.scopeCount + 1 }
                     | none => pyRaise "KeyError" wu
-                    modInstX k.1 fun y => { y with context := setArg key (.ref "action" wu) y.context }
+                    setCtxVar k.1 key (.ref "action" wu)
                 | _ => pure ()
               if !x.actionUids.contains cu then pyRaise "ValueError" "is not in list"
               let rec replaceFirst : List String → List String
